@@ -4,6 +4,7 @@ import (
 	"encoding/json"
 	"fmt"
 	"regexp"
+	"runtime"
 	"sort"
 	"strings"
 	"time"
@@ -72,6 +73,40 @@ func evalTree(sc *formula.SourceCode, data val.V) string {
 }
 
 var freshRunners int
+
+// addressSensitive reports whether the outcome of a formula depends on WHERE the data lives rather than on what it
+// holds: a pointer nested in a container is formatted as its address, and once a string builtin has cut, replaced or
+// re-cased that text the address can no longer be masked. Two evaluations against one built data object agree while an
+// evaluation against a second, equal build differs. Such outcomes are not comparable between builds (nor processes).
+func addressSensitive(sc *formula.SourceCode, data val.V) bool {
+	m, _ := val.Build(data, &val.Env{}).(map[string]interface{})
+	own := map[string]bool{}
+	for k := range m {
+		own[k] = true
+	}
+	on := func() string {
+		r := formula.NewRunner()
+		r.SetThis(m)
+		var v interface{}
+		var err error
+		ctx, release := hostCtxFor(sc)
+		defer release()
+		p, pv := core.Call(func() { v, err = r.Resolve(ctx, sc.Expression) })
+		for k := range m {
+			if !own[k] {
+				delete(m, k)
+			}
+		}
+		return outcome(v, err, p, pv)
+	}
+	a1, a2 := on(), on()
+	if a1 != a2 {
+		return false
+	}
+	other := evalTree(sc, data) // a second build of equal data, alive at the same time as the first
+	runtime.KeepAlive(m)
+	return a1 != other
+}
 
 // evalTreeKeep also hands back the value itself (to look at it again later).
 func evalTreeKeep(sc *formula.SourceCode, data val.V) (interface{}, string) {
@@ -148,6 +183,10 @@ var c08Pure = core.Mon(c08, "repeat-and-interleave", func(w *core.W, c *PureCase
 		w.Nontrivial(c.Src + "\x00" + core.HashStr(c.Data))
 	}
 	firstVal, first := evalTreeKeep(sc, c.Data)
+	if !clock && addressSensitive(sc, c.Data) {
+		w.Skip("address-dependent-output")
+		return
+	}
 	f0 := fieldsOf(sc)
 	w.Count("field_analyses")
 	// a formula without now / toDay does not read the clock: the same outcome when the wall clock says 2038 or 1930
